@@ -128,6 +128,8 @@ MUTS = {
     "m5_get_no_rlock": (F, [("func (s *syncedKVMap) get(key []byte) ([]byte, bool) {\n\ts.RLock()\n\tdefer s.RUnlock()\n",
                              "func (s *syncedKVMap) get(key []byte) ([]byte, bool) {\n")]),
     "m6_iteratekeys_recheck_per_key": (F, [(KEYS_OLD, KEYS_LAZY)]),
+    "m8_clear_keeps_view_lock": ("/repo/kvstore/mapdb/mapdb.go",
+                                 [("\ts.Lock()\n\tdefer s.Unlock()\n\n\ts.m.deletePrefix(s.realm)\n", "\ts.Lock()\n\n\ts.m.deletePrefix(s.realm)\n")]),
     "m7_set_rlock_only": (F, [("func (s *syncedKVMap) set(key, value []byte) {\n\ts.Lock()\n\tdefer s.Unlock()\n",
                                "func (s *syncedKVMap) set(key, value []byte) {\n\ts.RLock()\n\tdefer s.RUnlock()\n")]),
 }
